@@ -412,11 +412,11 @@ func RunCampaign(env *Env, p Property, opt Options, st *Stats) (*Report, error) 
 		f Finding
 	}
 	var (
-		mu       sync.Mutex
-		bySig    = map[string]hit{}
-		firstErr error
-		wg       sync.WaitGroup
-		next     int
+		mu         sync.Mutex
+		bySig      = map[string]hit{}
+		firstErr   error
+		wg         sync.WaitGroup
+		next       int
 		incomplete []string
 	)
 	worker := func() {
